@@ -93,8 +93,9 @@ def accuracy_oracle(args):
         a = herm(rng, n, args["width"])
         v = rng.normal(size=n) + 1j * rng.normal(size=n)
         if args.get("deficient"):
+            r = min(args["deficient"], n)
             w, q = np.linalg.eigh(a)
-            v = q[:, : args["deficient"]] @ (rng.normal(size=args["deficient"]) + 1j)
+            v = q[:, :r] @ (rng.normal(size=r) + 1j)
         out = expm_krylov(lambda x: a @ x, v.copy(), dt)
         ref = scipy.linalg.expm(-1j * dt * a) @ v
         if abs(np.linalg.norm(out) / np.linalg.norm(v) - 1) > 1e-9:
